@@ -115,6 +115,13 @@ def vio_keys(out):
     return {l.split("#", 1)[1].strip() for l in out.splitlines() if l.startswith("VIOLATION") and "#" in l}
 
 
+def vio_rules(out):
+    """{(rule id, key)} from the `  rule=<id> key=<key> at ..` lines that follow VIOLATION lines"""
+    import re
+
+    return {(m.group(1), m.group(2)) for m in (re.match(r"\s+rule=(\S+) key=(.*?) at ", l) for l in out.splitlines()) if m}
+
+
 def neutral(props, base):
     """Behaviour-preserving variants of the tree must not add a report: (a) neutral/edits.diff (renamed locals, reordered arms,
     matches! for match, map for and_then(Some), an extracted local, a complete hand-written Hash), (a') neutral/clippy_fix.diff, the machine-applicable
@@ -153,17 +160,23 @@ def neutral(props, base):
             try:
                 rc0, out0 = run_check(prop, ref, evd)
                 for name, vd in variants:
-                    if prop in limits.get(name, ()):
-                        print("limit   %s/neutral:%s (restructuring beyond what the rules of %s read through: they answer UNDECIDED, see DESIGN section 7)" % (prop, name, prop))
-                        continue
                     rc, out = run_check(prop, vd, evd)
-                    new = vio_keys(out) - vio_keys(out0)
+                    new = vio_rules(out) - vio_rules(out0)
+                    # known limits are per ORIGIN property of a rule: the own rules of a listed property, and its rules adopted elsewhere as `<origin>.<id>`
+                    lim = limits.get(name, ())
+                    tolerated = {(r, k) for (r, k) in new if (r.split(".")[0] in lim if "." in r else prop in lim)}
+                    new = sorted(k for (r, k) in new - tolerated)
+                    if tolerated:
+                        print("limit   %s/neutral:%s (%d UNDECIDED report(s) of the rules of %s: restructuring beyond what they read through, see DESIGN section 7)"
+                              % (prop, name, len(tolerated), "/".join(sorted({r.split(".")[0] if "." in r else prop for (r, k) in tolerated}))))
+                        if not new and rc == 1:
+                            continue
                     if rc == 2 and rc0 != 2:
                         ok = False
                         print("FALSE-ALARM %s/neutral:%s checker error on a behaviour-preserving variant: %s" % (prop, name, " | ".join(l for l in out.splitlines() if l.startswith("ERROR"))[:300]))
                     elif new:
                         ok = False
-                        print("FALSE-ALARM %s/neutral:%s reports %s" % (prop, name, sorted(new)[:4]))
+                        print("FALSE-ALARM %s/neutral:%s reports %s" % (prop, name, new[:4]))
                     else:
                         print("silent  %s/neutral:%s" % (prop, name))
             finally:
